@@ -135,6 +135,7 @@ HISTORIES = [
     [('append', 'INBOX', b'', 0), ('select', 'INBOX'), ('store', 1, b'FLAGS', b'\\Seen \\Draft kw'), ('store', 1, b'-FLAGS', b'\\Seen'), ('close',), ('append', 'INBOX', b'', 1)],
     [('create', 'P'), ('create', 'P/Q'), ('append', 'P/Q', b'', 0), ('subscribe', 'P/Q'), ('select', 'P/Q'), ('copy', 1, 'INBOX'), ('move', 1, 'P')],
 ]
+HISTORIES.append([('append', 'INBOX', b'', 0), ('append', 'INBOX', b'\\Seen', 1), ('select', 'INBOX'), ('move', 1, 'INBOX'), ('copy', 2, 'INBOX'), ('status', 'INBOX')])
 THOROUGH_EXTRA = [
     [('append', 'INBOX', b'', i) for i in range(4)] + [('select', 'INBOX'), ('store', 2, b'+FLAGS', b'\\Deleted'), ('expunge',), ('copy', 1, 'INBOX'), ('move', 3, 'INBOX')],
     [('create', 'X'), ('append', 'X', b'', 0), ('rename', 'X', 'Y'), ('create', 'X'), ('append', 'X', b'', 1), ('status', 'X'), ('status', 'Y')],
@@ -378,7 +379,8 @@ async def restart_check(snap, layout, model: Model, inflight, where):
                 inflight_store = (k == 'store' and model.selected == name and inflight[1] == u)
                 if sf != flags and not inflight_store:
                     errors.append(f'{where}: message uid {u} of {name!r} has flags {sorted(sf)} after the restart, acknowledged: {sorted(flags)}')
-                if box['v'] is not None and s['v'] == box['v'] and s is here[0] and su != u and not any(
+                inflight_move = (k == 'move' and model.selected == name and inflight[1] == u)     # it may already carry its new uid
+                if box['v'] is not None and s['v'] == box['v'] and s is here[0] and su != u and not inflight_move and not any(
                         x == u and norm(s['msgs'][x][0]) == norm(content) for x in s['msgs']):
                     errors.append(f'{where}: message {content[:24]!r} of {name!r} was acknowledged as uid {u}; with unchanged UIDVALIDITY '
                                   f'{box["v"]} it is uid {su} after the restart')
